@@ -65,9 +65,9 @@ def gen_case(rng, k, big, only=None):
             n = rng.randint(9, 120)
         biv = rng.choice([None, None, 0.01, 0.02, 0.05, 0.1, 0.19])
     second = None
-    if not fd and da != 255 and rng.random() < 0.35:
+    if da != 255 and only != 'mpg' and rng.random() < 0.35:
         # a second transfer on the same pair once the first has completed (theorem C10_sequence_of_transfers_all_deliver)
-        second = dict(n=rng.choice(SIZES[:8]) if rng.random() < 0.3 else rng.randint(9, 80), dp=rng.choice([0, 1]), prio=rng.randint(0, 7),
+        second = dict(n=(rng.choice([61, 120, 121]) if rng.random() < 0.3 else rng.randint(61, 300)) if fd else rng.choice(SIZES[:8]) if rng.random() < 0.3 else rng.randint(9, 80), dp=rng.choice([0, 1]), prio=rng.randint(0, 7),
                       pf=rng.choice([x for x in range(0, 240) if x not in (0xEA, 0xEB, 0xEC, 0xEE, 0x4D, 0x4E, 0x25)]), seed=rng.getrandbits(30))
     return dict(second=second, biv=biv, n=n, sa=sa, da=da, pf=pf, dp=rng.choice([0, 0, 1]), prio=rng.randint(0, 7),
                 wa=rng.choice(WINDOWS + [rng.randint(1, 255)]), wb=rng.choice(WINDOWS + [rng.randint(1, 255)]),
@@ -117,6 +117,11 @@ def model_text(c, data, data2=None):
             s0 = '(fold_left (net22_submit %d %d) [%s] (net22_0 (%s) (%s) 1000))' % (c['sa'], c['da'], gl, a, b)
             return 'obs (steps22 5%%nat %s) ++ [[-3]] ++ [map fst (tlog22 5%%nat %s)]' % (s0, s0)
         nseg = (c['n'] + 59) // 60
+        if c.get('second'):
+            g = c['second']
+            s0 = '(net22_send (net22_0 (%s) (%s) 1000) %d %d %d %d %d %s)' % (a, b, c['dp'], c['pf'], c['da'], c['prio'], c['sa'], C.zl(data))
+            return ('obs (steps22 %d%%nat (net22_send (steps22 %d%%nat %s) %d %d %d %d %d %s))'
+                    % (3 * ((g['n'] + 59) // 60) + 14, 3 * nseg + 14, s0, g['dp'], g['pf'], c['da'], g['prio'], c['sa'], C.zl(data2)))
         s0 = '(net22_send (net22_0 (%s) (%s) 1000) %d %d %d %d %d %s)' % (a, b, c['dp'], c['pf'], c['da'], c['prio'], c['sa'], C.zl(data))
         timed = ' ++ [[-3]] ++ [map fst (tlog22 %d%%nat %s)]' % (3 * nseg + 14, s0) if c['da'] == 255 else ''
         return 'obs (steps22 %d%%nat %s)%s' % (3 * nseg + 14, s0, timed)
